@@ -111,9 +111,9 @@ def run(ctx):
         except Exception as e:
             ctx.violation('a fully signed standard transaction does not parse back', {'op': 'roundtrip', 'error': repr(e)[:120], 'raw': raw.hex(), **info})
         for vname, base in variants:
-            tampers = ['out_value', 'out_script', 'prev_txid', 'output_n', 'sequence', 'locktime', 'version', 'in_value', 'sig_corrupt',
+            tampers = ['out_value', 'out_script', 'prev_txid', 'output_n', 'sequence', 'locktime', 'version', 'version_bytes', 'in_value', 'sig_corrupt',
                        'sig_foreign', 'sig_drop']
-            for tm in (tampers if T else rng.sample(tampers, 5)):
+            for tm in (tampers if T else rng.sample(tampers, 6)):
                 tt = copy.deepcopy(base)
                 i = rng.randrange(len(tt.inputs))
                 m = d['meta'][i]
@@ -136,6 +136,9 @@ def run(ctx):
                     elif tm == 'version':
                         tt.version_int ^= 2
                         tt.version = tt.version_int.to_bytes(4, 'big')
+                    elif tm == 'version_bytes':
+                        # only the serialised field changes (what raw() writes); the integer copy is left alone
+                        tt.version = (int.from_bytes(tt.version, 'big') ^ 2).to_bytes(4, 'big')
                     elif tm == 'in_value':
                         tt.inputs[i].value += 1
                         if m['wt'] != 'segwit':
